@@ -179,6 +179,90 @@ def part_passive_gates(ctx, pq, quick, rng):
                     ok = False
             if ok:
                 ctx.validated()
+                if np.abs(exact).max() > 1e-12:
+                    ctx.sample(replay, limit=3)
+
+
+def part_active_gates(ctx, pq, quick, rng):
+    """Gates without an exact lattice tangent (Fock-space displacement, squeezing, ... with hand-written gradient rules): the programs are
+    still TLC behaviours of PqGaussian (lattice parameters, every ordered mode tuple), executed on a number-state input; the oracle is the one
+    the property itself names -- central finite differences of the NumPy simulation at the same cutoff.  Jacobians (symbolic upstream
+    gradient) and gradients (concrete upstream) through TensorFlow, jacrev through JAX."""
+    import tensorflow as tf
+    import jax
+    import jax.numpy as jnp
+    from .. import gaussian_replay as GR
+    from . import c09
+    counters = ctx.notes.setdefault("active_gates", {"programs": 0, "tf.jacobian": 0, "tf.gradient": 0, "jax": 0, "unsupported": 0})
+    for d, depth, cutoff, nprog in ((2, 2, 6, 8 if quick else 60), (3, 3, 5, 8 if quick else 60)):
+        cat = [g for g in L.gaussian_catalogue(d) if not g.get("chan")]
+        act = [g for g in cat if not g["passive"]]
+        pas = [g for g in cat if g["passive"]]
+        gates = rng.sample(act, 4) + rng.sample(pas, 2)
+        recs = [r for r in GR.explore(ctx, d, gates, depth) if len(r["hist"]) == depth]
+        recs = rng.sample(recs, min(nprog, len(recs)))
+        inputs = [v for v in L.inputs(d, 2) if sum(v) >= 1]
+        for k, rec in enumerate(recs):
+            idx = [i - 1 for i in rec["hist"]]
+            names = [gates[i]["name"] + str(gates[i]["modes"]) for i in idx]
+            inp = rng.choice(inputs)
+            with warnings.catch_warnings():
+                warnings.simplefilter("ignore")
+                base = [pq.NumberState(inp).on_modes(*range(d))] + [c09.instr(pq, gates[i]) for i in idx]
+                # mark one real scalar parameter of one gate, preferably not the last gate (so that later gates back-propagate through their rules)
+                cands = [(s_, pn, pv) for s_, ins_ in enumerate(base) for pn, pv in c09.scalar_params(ins_) if s_ > 0]
+                if not cands:
+                    continue
+                mstep, pname, p0 = cands[k % len(cands)]
+
+                def prog(x):
+                    out = list(base)
+                    params = dict(base[mstep].params)
+                    params[pname] = x
+                    out[mstep] = type(base[mstep])(**params).on_modes(*base[mstep].modes)
+                    return pq.Program(instructions=out)
+
+                def run(conn, x):
+                    return pq.PureFockSimulator(d=d, config=pq.Config(cutoff=cutoff), connector=conn).execute(prog(x)).state.fock_probabilities
+                sig = f"{type(base[mstep]).__name__}.{pname}:" + "/".join(sorted({x_.split('(')[0] for x_ in names}))
+                replay = {"input": inp, "gates": names, "parameter": f"{pname} of gate {mstep}", "cutoff": cutoff}
+                ctx.case((inp, tuple(names), mstep, pname, cutoff))
+                counters["programs"] += 1
+                try:
+                    h = 1e-5
+                    fd = (np.asarray(run(pq.NumpyConnector(), p0 + h)) - np.asarray(run(pq.NumpyConnector(), p0 - h))) / (2 * h)
+                except Exception:
+                    counters["unsupported"] += 1
+                    continue
+                w = np.cos(np.arange(len(fd)) * 0.7 + 0.3)        # a fixed weighting for the scalar objective
+                ok = True
+
+                def judge(kind, got, exp):
+                    nonlocal ok
+                    got = np.asarray(got, dtype=float).reshape(-1)
+                    exp = np.asarray(exp, dtype=float).reshape(-1)
+                    if got.shape != exp.shape or np.abs(got - exp).max() > 2e-6 * max(1.0, np.abs(exp).max()):
+                        ctx.report(f"C10:active:{kind}:{sig}", f"{kind}: derivative of the Fock probabilities with respect to {pname} of gate {mstep} of {names} on {inp} (cutoff {cutoff}) differs from "
+                                   f"finite differences of the NumPy simulation by {np.abs(got - exp).max() if got.shape == exp.shape else 'shape'}", replay)
+                        ok = False
+                    counters[kind] += 1
+                try:
+                    x = tf.Variable(p0, dtype=tf.float64)
+                    with tf.GradientTape(persistent=True) as tape:
+                        pr = run(pq.TensorflowConnector(), x)
+                        obj = tf.reduce_sum(pr * tf.constant(w, dtype=pr.dtype))
+                    judge("tf.jacobian", tape.jacobian(pr, x), fd)
+                    judge("tf.gradient", tape.gradient(obj, x), np.dot(fd, w))
+                except Exception as e:  # noqa
+                    ctx.report(f"C10:active:tf:raises:{type(e).__name__}:{sig}", f"TensorFlow derivative raised {type(e).__name__}: {str(e)[:140]} for {names} / {pname}", replay)
+                    ok = False
+                try:
+                    judge("jax", jax.jacrev(lambda xx: run(pq.JaxConnector(), xx))(jnp.asarray(p0, dtype=jnp.float64)), fd)
+                except Exception as e:  # noqa
+                    ctx.report(f"C10:active:jax:raises:{type(e).__name__}:{sig}", f"JAX derivative raised {type(e).__name__}: {str(e)[:140]} for {names} / {pname}", replay)
+                    ok = False
+                if ok:
+                    ctx.validated()
 
 
 def perm_def(A, rows, cols):
@@ -255,8 +339,10 @@ def run(ctx):
     quick = ctx.tier == "quick"
     rng = random.Random(ctx.seed + 10)
     ctx.assumptions += ["exact tangents exist only for gates with a lattice one-particle matrix (Beamsplitter theta/phi, Phaseshifter phi; Kerr-type gates are differentiated through)",
-                        "hand-written gradient rules of Fock-space displacement / squeezing have no exact lattice reference: not decided here (see DESIGN)"]
+                        "hand-written gradient rules of Fock-space displacement / squeezing have no exact lattice tangent: for them the oracle is the property's own one, central finite differences of the NumPy simulation at the same cutoff"]
     part_passive_gates(ctx, pq, quick, rng)
     ctx.tick("passive_gates")
+    part_active_gates(ctx, pq, quick, rng)
+    ctx.tick("active_gates")
     part_permanent(ctx, pq, quick, rng)
     ctx.tick("permanent")
